@@ -42,7 +42,10 @@ def known_match(prop, v, known):
     for k in known:
         if k.get("property") != prop or k.get("status") != "open":
             continue
-        if k.get("signature") != v["sig"]:
+        if k.get("signature_regex"):
+            if not re.search(k["signature_regex"], v["sig"]):
+                continue
+        elif k.get("signature") != v["sig"]:
             continue
         pat = k.get("trigger_regex")
         if pat:
@@ -168,6 +171,11 @@ def _main(args) -> int:
             except runner.HarnessFailure:
                 path = full
         new.append((sig, v, path, len(by_sig[sig])))
+    merged = {}
+    for k, cnt in listed:
+        key = json.dumps(k, sort_keys=True)
+        merged[key] = (k, merged.get(key, (k, 0))[1] + cnt)
+    listed = list(merged.values())
     for k, cnt in listed:
         print("KNOWN-FINDING: property=%s %s (signature %s, %d occurrence(s) this run)" % (prop, k.get("what", ""), k.get("signature"), cnt))
     for sig, v, path, cnt in new:
